@@ -62,6 +62,11 @@ func (vc *VC) scriptMode(o *Oblig, prelude string, axioms []string, wantModel bo
 	for _, a := range vc.rootAssum {
 		emit(a)
 	}
+	if strings.Contains(o.Goal, "str.") || strings.Contains(o.Goal, "classRun") {
+		for _, a := range vc.strFacts {
+			emit(a)
+		}
+	}
 	vis := vc.assum[:o.nAssum]
 	if shuffleSeed != 0 {
 		// robustness experiment: the same assumptions in a pseudo-random order (no effect on meaning)
@@ -349,6 +354,28 @@ func (pr *Prover) discharge(vc *VC, o *Oblig, prelude string, axioms []string) *
 		os.Remove(mf)
 		v.Status = "failed-sat"
 		return v
+	}
+	// stage 3: a conjunctive goal is proved conjunct by conjunct (sound: same assumptions, each conjunct separately)
+	if parts := splitConj(o.Goal); len(parts) > 1 && o.Kind != "canary" && !strings.HasSuffix(o.Name, "~part") {
+		all := true
+		for k, g := range parts {
+			o2 := *o
+			o2.Name = fmt.Sprintf("%s.%d~part", o.Name, k)
+			o2.Goal = g
+			v2 := pr.discharge(vc, &o2, prelude, axioms)
+			v.Ms += v2.Ms
+			v.Tried = append(v.Tried, fmt.Sprintf("conjunct%d:%s", k, v2.Status))
+			if v2.Status != "proved" {
+				all = false
+				break
+			}
+		}
+		if all {
+			v.Status = "proved"
+			v.Backend = "conjunct-split"
+			cleanup()
+			return v
+		}
 	}
 	v.Status = "failed-unknown"
 	return v
